@@ -304,7 +304,12 @@ pub fn c18(tier: &str, seed: u64) {
     let epoch = gen_epoch(&mut g);
     let e = epoch.as_bytes();
     let small = case_i % 4 == 3; // small enough to try ALL orders
-    let ngroups = if small {
+    // large batches (thousands of reports, mostly below-threshold filler): internal batching /
+    // splitting thresholds of a parallel implementation only show beyond a few thousand reports
+    let huge = case_i == 2 || (!q && case_i % 400 == 2);
+    let ngroups = if huge {
+      if q { 8000 } else { 22000 }
+    } else if small {
       g.range(1, 2) as usize
     } else if !q && case_i % 25 == 0 {
       g.range(100, 300) as usize
@@ -316,7 +321,10 @@ pub fn c18(tier: &str, seed: u64) {
     for gi in 0..ngroups {
       let mut m = { let n = g.below(40) as usize; g.blob(n) };
       m.extend((gi as u32).to_le_bytes());
-      let size = if small {
+      let size = if huge {
+        // a few groups at/above the threshold whose reports end up far apart after shuffling
+        if gi % 1000 == 7 { t as usize + (gi / 1000) % 3 } else { g.range(1, 2) as usize }
+      } else if small {
         g.range(1, 3) as usize
       } else {
         match g.below(4) {
